@@ -229,6 +229,9 @@ def run (ctx):
   expn = [n for n in g2.nodes if any(call_name(c) == 'append' and 'expired' in norm(c.func.value) for c in q.node_calls(n))]
   regs = [n for n in g2.nodes if n.kind == 'stmt' and isinstance(n.ast, ast.Assign) and isinstance(n.ast.targets[0], ast.Subscript) and isinstance(n.ast.targets[0].value, ast.Name)
           and n.ast.targets[0].value.id in ('rl', 'wl', 'xl')]
+  # ... or entered several at a time: rl.update((i, t) for i in trl)
+  regs += [n for n in g2.nodes if n.ast is not None and n.kind == 'stmt' and any(call_name(c_) in ('update', 'setdefault') and isinstance(c_.func, ast.Attribute) and isinstance(c_.func.value, ast.Name)
+           and c_.func.value.id in ('rl', 'wl', 'xl') for c_ in q.node_calls(n)) and n not in regs]
   ctx.floor('hub: expiry collection site', len(expn), 1); ctx.floor('hub: descriptor registration sites', len(regs), 3)
   for (st_, h_, af_) in g2.loop_nodes:
     body = g2.loop_body_nodes(h_)
